@@ -14,8 +14,10 @@ import (
 	"encoding/json"
 	"errors"
 	"fmt"
+	"io/fs"
 	"os"
 	"path/filepath"
+	"sort"
 	"strconv"
 	"strings"
 )
@@ -130,6 +132,91 @@ func vhGlob(pattern string) ([]string, error) {
 	return out, nil
 }
 
+// vhWalkDir: filepath.WalkDir over the model directory: the root, then everything below it in lexical order,
+// directories before their contents; SkipDir / SkipAll as documented.
+type vhDirEntry struct {
+	name string
+	dir  bool
+}
+
+func (e vhDirEntry) Name() string { return e.name }
+func (e vhDirEntry) IsDir() bool  { return e.dir }
+func (e vhDirEntry) Type() fs.FileMode {
+	if e.dir {
+		return fs.ModeDir
+	}
+	return 0
+}
+func (e vhDirEntry) Info() (fs.FileInfo, error) { return vhFileInfo{mode: e.Type()}, nil }
+
+func vhWalkDir(root string, fn fs.WalkDirFunc) error {
+	if !vStubOn("fs") {
+		return filepath.WalkDir(root, fn)
+	}
+	exists := false
+	for _, n := range vhDirNames {
+		if strings.HasPrefix(n, root+"/") {
+			exists = true
+		}
+	}
+	if !exists {
+		return fn(root, nil, errors.New("vh: lstat "+root+": no such file or directory"))
+	}
+	err := vhWalkDirRec(root, fn)
+	if err == filepath.SkipDir || err == filepath.SkipAll {
+		return nil
+	}
+	return err
+}
+
+func vhWalkDirRec(dir string, fn fs.WalkDirFunc) error {
+	if err := fn(dir, vhDirEntry{name: filepath.Base(dir), dir: true}, nil); err != nil {
+		if err == filepath.SkipDir {
+			return nil
+		}
+		return err
+	}
+	// children: the next path component of every name below dir
+	var kids []string
+	isDir := map[string]bool{}
+	for _, n := range vhDirNames {
+		if !strings.HasPrefix(n, dir+"/") {
+			continue
+		}
+		rest := n[len(dir)+1:]
+		k := rest
+		if i := strings.Index(rest, "/"); i >= 0 {
+			k = rest[:i]
+			isDir[k] = true
+		}
+		seen := false
+		for _, o := range kids {
+			if o == k {
+				seen = true
+			}
+		}
+		if !seen {
+			kids = append(kids, k)
+		}
+	}
+	sort.Strings(kids)
+	for _, k := range kids {
+		if isDir[k] {
+			if err := vhWalkDirRec(dir+"/"+k, fn); err != nil {
+				return err
+			}
+			continue
+		}
+		if err := fn(dir+"/"+k, vhDirEntry{name: k}, nil); err != nil {
+			if err == filepath.SkipDir {
+				return nil // skips the rest of the directory
+			}
+			return err
+		}
+	}
+	return nil
+}
+
 func vhLoadMetadataStub(path string) (Metadata, error) {
 	if !vStubOn("loadmeta") {
 		return LoadMetadata(path)
@@ -148,6 +235,12 @@ var vhLinkFiles map[string]*vhMeta
 // vh_C15_loadlinks: the same scenario counted for C15 (no crash on hostile directories).
 func vh_C15_loadlinks(a []int) { vh_C02_loadlinks(a) }
 
+// vh_C08_linkdir: the same scenario counted for C08: the links of a layout are the files of its own link directory,
+// not those of the sublayout directories nested in it.
+func vh_C08_linkdir(a []int) { vh_C02_loadlinks(a) }
+
+func init() { vhRegister("vh_C08_linkdir", vh_C08_linkdir) }
+
 // a = {#files in the directory, step name variant (0 plain, 1 with glob meta characters)}
 func vh_C02_loadlinks(a []int) {
 	nfiles := a[0]
@@ -155,7 +248,9 @@ func vh_C02_loadlinks(a []int) {
 	thr := vInt("threshold", 0, 2)
 	layout := Layout{Steps: []Step{{Type: "step", Threshold: thr, SupplyChainItem: SupplyChainItem{Name: stepName}}}}
 	// candidate file names: honest ones for two key ids, a foreign step's, ones that only a glob-ish step name matches
-	names := []string{"DIR/build.aaaaaaaa.link", "DIR/build.bbbbbbbb.link", "DIR/other.aaaaaaaa.link", "DIR/a.12345678.link", "DIR/bd.aaaaaaaa.link", "DIR/build.aaaaaaaa.link.bak"}
+	// ... and a link of the same name in the directory of a sublayout (<step>.<keyid>/): it belongs to that sublayout
+	names := []string{"DIR/build.aaaaaaaa.link", "DIR/build.bbbbbbbb.link", "DIR/other.aaaaaaaa.link", "DIR/a.12345678.link", "DIR/bd.aaaaaaaa.link", "DIR/build.aaaaaaaa.link.bak",
+		"DIR/sub.aaaaaaaa11/build.aaaaaaaa.link"}
 	vhDirNames, vhLinkFiles = nil, map[string]*vhMeta{}
 	type finfo struct {
 		name   string
@@ -273,7 +368,13 @@ func vhJSONBytes(v interface{}) []byte {
 }
 
 // a = {wrapper (0 legacy, 1 DSSE), payload kind (0 link, 1 layout)}
-func vh_C12_load(a []int)      { vhC12Load(a, false) }
+func vh_C12_load(a []int) { vhC12Load(a, false) }
+
+// vh_C15_load: the same scenario counted for C15: whatever the file holds, both loaders return - with metadata or
+// with an ordinary error.
+func vh_C15_load(a []int) { vhC12Load(a, false) }
+
+func init()                    { vhRegister("vh_C15_load", vh_C15_load) }
 func vh_C12_load_twin(a []int) { vhC12Load(a, true) }
 
 func vhC12Load(a []int, twin bool) {
@@ -385,6 +486,11 @@ func vhC12Load(a []int, twin bool) {
 		var mb Metablock
 		lerr := mb.Load("the.file")
 		vAssert("C12.deprecated-load-agrees-with-LoadMetadata", (lerr == nil) == (err == nil))
+	} else {
+		// a DSSE file handed to the loader of the legacy wrapper is an ordinary error (it has no signed part)
+		var mb Metablock
+		lerr := mb.Load("the.file")
+		vAssert("C12.deprecated-load-refuses-envelopes", lerr != nil)
 	}
 	vReach("C12.end")
 }
@@ -486,3 +592,56 @@ func init() {
 	vhRegister("vh_C04_roundtrip_layout", vh_C04_roundtrip_layout)
 	vhRegister("vh_C12_roundtrip_layout", vh_C12_roundtrip_layout)
 }
+
+// vh_C01_dsse_members: a DSSE file assembled by hand around an authentic envelope: besides the authentic payload
+// and signatures it carries a second payload member (a forged layout) whose name differs in letter case, is the
+// same, or stands before / after the authentic one.  Whatever the loader makes of such a file - refusing it is
+// fine - a loaded envelope that verifies under the signer's key must hand out the layout that was signed.
+// a = {spelling of the extra member, its position (0 before, 1 after the member named payload), 1: the extra member holds the authentic content}
+func vh_C01_dsse_members(a []int) {
+	signed := Layout{Type: "layout", Expires: "2030-01-01T00:00:00Z", Readme: "the signed layout", Keys: map[string]Key{}, Steps: []Step{}, Inspect: []Inspection{}}
+	forged := Layout{Type: "layout", Expires: "2030-01-01T00:00:00Z", Readme: "a layout nobody signed", Keys: map[string]Key{}, Steps: []Step{},
+		Inspect: []Inspection{{Type: "inspection", Run: []string{"sh", "-c", "touch pwned"}, SupplyChainItem: SupplyChainItem{Name: "evil", ExpectedMaterials: [][]string{}, ExpectedProducts: [][]string{}}}}}
+	auth := &Envelope{}
+	if err := auth.SetPayload(signed); err != nil {
+		vFail("SetPayload")
+	}
+	if err := auth.Sign(vhEdKey(0, true)); err != nil {
+		vFail("sign")
+	}
+	other := &Envelope{}
+	if err := other.SetPayload(forged); err != nil {
+		vFail("SetPayload forged")
+	}
+	sigs, err := json.Marshal(auth.envelope.Signatures)
+	if err != nil {
+		vFail("marshal signatures")
+	}
+	extraName := []string{"PAYLOAD", "Payload", "payload", "payLoad"}[a[0]]
+	// which of the two members carries the authentic content
+	exactContent, extraContent := auth.envelope.Payload, other.envelope.Payload
+	if a[2] == 1 {
+		exactContent, extraContent = other.envelope.Payload, auth.envelope.Payload
+	}
+	exact := `"payload":"` + exactContent + `"`
+	extra := `"` + extraName + `":"` + extraContent + `"`
+	first, second := extra, exact
+	if a[1] == 1 {
+		first, second = exact, extra
+	}
+	text := `{"payloadType":"` + PayloadType + `",` + first + `,` + second + `,"signatures":` + string(sigs) + `}`
+	vhFiles = map[string][]byte{"tampered.layout": []byte(text)}
+	md, lerr := LoadMetadata("tampered.layout")
+	verifies := false
+	if lerr == nil {
+		verifies = md.VerifySignature(vhEdKey(0, false)) == nil
+	}
+	vObserve("dsse-members", lerr == nil, verifies)
+	if lerr == nil && verifies {
+		got, isLayout := md.GetPayload().(Layout)
+		vAssert("C01.a-loaded-envelope-that-verifies-hands-out-the-signed-layout", isLayout && vspecCanonLayout(got) == vspecCanonLayout(signed))
+	}
+	vReach("C01.end")
+}
+
+func init() { vhRegister("vh_C01_dsse_members", vh_C01_dsse_members) }
